@@ -16,7 +16,9 @@
 (***************************************************************************)
 EXTENDS Integers, Sequences, FiniteSets, TLC
 
-CONSTANTS Accounts        \* user / role account symbols, e.g. {"a1","a2","a3"}
+CONSTANTS Accounts,       \* user / role account symbols, e.g. {"a1","a2","a3"}
+          MintLower       \* what lower-casing the minting denom yields: "MINT" when the chain's minting denom is
+                          \* lower-case already (uusdc), "MINT_LOW" for a mixed-case minting denom (uUSDC)
 
 MODULE_ACC == "MODULE"
 None       == "none"
@@ -48,11 +50,11 @@ IsZero32(b)    == b.n = 32 /\ IsZeroBytes(b)
 
 ---------------------------------------------------------------------------
 (* Denoms.                                                                  *)
-Lower(d) == CASE d = "MINT_UP"  -> "MINT"
+Lower(d) == CASE d \in {"MINT", "MINT_UP", "MINT_LOW"} -> MintLower
               [] d = "OTHER_UP" -> "OTHER"
-              [] OTHER          -> d          \* MINT, OTHER, MINT_FOLD, EMPTY are fixed points
-FoldsToMint(d)    == d \in {"MINT", "MINT_UP", "MINT_FOLD"}     \* strings.EqualFold with the minting denom
-ValidCoinDenom(d) == d \in {"MINT", "MINT_UP", "OTHER", "OTHER_UP"}  \* acceptable to the SDK coin type
+              [] OTHER          -> d          \* OTHER, MINT_FOLD, EMPTY are fixed points
+FoldsToMint(d)    == d \in {"MINT", "MINT_UP", "MINT_LOW", "MINT_FOLD"}     \* strings.EqualFold with the minting denom
+ValidCoinDenom(d) == d \in {"MINT", "MINT_UP", "MINT_LOW", "OTHER", "OTHER_UP"}  \* acceptable to the SDK coin type
 
 ---------------------------------------------------------------------------
 (* Wire messages.                                                           *)
